@@ -18,6 +18,24 @@ pub struct C03;
 pub const ENUM_P: u64 = 352;
 pub const ENUM_E: u64 = 2 * 1536;
 
+// ... then, for ENUM2_P small generated programs, every inter-token space after the first
+// print statement is corrupted (illegal character; `,` where that is a syntax error):
+// a runnable prefix exists, and none of it may run
+pub const ENUM2_P: u64 = 1500;
+pub const ENUM2_E: u64 = 240;
+
+fn prefix_corruptions(w2: &crate::w2::W2Prog) -> Vec<Item> {
+    const REPL: &[&[u8]] = &[b"@", b"~", b"^", b"?", b"\x01", b"`", "é".as_bytes(), "✓".as_bytes(), b"\x0b"];
+    let mut v = vec![];
+    for (i, sp) in w2.spaces.iter().enumerate().filter(|(_, s)| s.after_first_print) {
+        if sp.stmt_level {
+            v.push(Item::Flip { off: sp.off, bytes: b",".to_vec() });
+        }
+        v.push(Item::Flip { off: sp.off, bytes: REPL[i % REPL.len()].to_vec() });
+    }
+    v
+}
+
 const WORLD_DIMS: &[&str] = &["rand", "cwd_name", "rel", "file_name", "spelling", "stdout", "merged"];
 
 fn pick_program(ctx: &Ctx, rng: &mut Rng) -> programs::Picked {
@@ -64,7 +82,7 @@ impl Property for C03 {
         if tier == "thorough" { 1_500_000 } else { 40_000 }
     }
     fn rule(&self) -> String {
-        "thorough tier additionally enumerates, for every corpus script up to 1536 bytes, truncation at every byte offset and an invalid UTF-8 byte at every byte offset; sampled cases: case = (printing program from W1 | W2) x (delivery mode: chunked reads at PRNG boundaries incl. inside multi-byte characters, wrong size hint, EINTR bursts | read error at the n-th read | open error (7 injected errnos; or refused by the kernel itself: trailing slash, directory, symlink loop, missing file, path longer than PATH_MAX) | getcwd error | stored byte replaced by an invalid UTF-8 byte at a PRNG offset | inter-token space replaced by a character no token starts with, or - outside all brackets - by a ',' that makes a syntax error (W2 only) | truncated delivery at a PRNG offset); oracle: invisible deliveries => reference transcript; read/open/cwd/encoding faults => empty stdout, no fd-1 write attempted, exit 103, exactly one stderr line starting with argv[1]; lexical corruption => same plus located form with line <= lines+1; truncation => exit in {0,103}, stderr empty iff exit 0, located line bound; on every run all script reads and the close precede the first stdout write; non-trivial = fault/delivery event fired; distinct = distinct (program, world, plan)".to_string()
+        "thorough tier additionally enumerates, for every corpus script up to 1536 bytes, truncation at every byte offset and an invalid UTF-8 byte at every byte offset, and, for 1500 small generated programs, every corruption of an inter-token space after the first print statement into an illegal character or a stray comma (up to 240 per program); sampled cases: case = (printing program from W1 | W2) x (delivery mode: chunked reads at PRNG boundaries incl. inside multi-byte characters, wrong size hint, EINTR bursts | read error at the n-th read | open error (7 injected errnos; or refused by the kernel itself: trailing slash, directory, symlink loop, missing file, path longer than PATH_MAX) | getcwd error | stored byte replaced by an invalid UTF-8 byte at a PRNG offset | inter-token space replaced by a character no token starts with, or - outside all brackets - by a ',' that makes a syntax error (W2 only) | truncated delivery at a PRNG offset); oracle: invisible deliveries => reference transcript; read/open/cwd/encoding faults => empty stdout, no fd-1 write attempted, exit 103, exactly one stderr line starting with argv[1]; lexical corruption => same plus located form with line <= lines+1; truncation => exit in {0,103}, stderr empty iff exit 0, located line bound; on every run all script reads and the close precede the first stdout write; non-trivial = fault/delivery event fired; distinct = distinct (program, world, plan)".to_string()
     }
     fn assumptions(&self) -> Vec<String> {
         vec![
@@ -90,6 +108,24 @@ impl Property for C03 {
             }
             let aux = serde_json::json!({"enum": {"program": prog_i, "slot": slot}});
             return Case { label: format!("W1:{}", sc.name), program: sc.src.clone(), aux, world: World::reference(), plan };
+        }
+        let base = ENUM_P * ENUM_E;
+        if ctx.tier == "thorough" && index >= base && index < base + ENUM2_P * ENUM2_E {
+            let k = index - base;
+            let prog_i = k % ENUM2_P;
+            let slot = (k / ENUM2_P) as usize;
+            let mut prng = Rng::for_run(ctx.seed, "C03-enum-program", prog_i);
+            let small = crate::w2::GenOpts { max_calls: 12, max_depth: 3, top_stmts: 4, interp: true };
+            let p = crate::w2::pick(&mut prng, &small);
+            let w2p = crate::w2::build(&p.aux);
+            let cands = prefix_corruptions(&w2p);
+            let mut plan = Plan::new();
+            if slot < cands.len() {
+                plan.items.push(cands[slot].clone());
+            }
+            let mut aux = p.aux.clone();
+            aux["enum2"] = serde_json::json!({"program": prog_i, "slot": slot, "candidates": cands.len()});
+            return Case { label: p.label, program: p.program, aux, world: World::reference(), plan };
         }
         let mut p = pick_program(ctx, rng);
         let mode = rng.below(16);
@@ -190,6 +226,18 @@ impl Property for C03 {
                 return out;
             }
             out.probes.push("enum:case".into());
+        }
+        if let Some(e) = case.aux.get("enum2") {
+            let slot = e.get("slot").and_then(|v| v.as_u64()).unwrap_or(0);
+            let cands = e.get("candidates").and_then(|v| v.as_u64()).unwrap_or(0);
+            if slot == 0 {
+                out.probes.push(if cands <= ENUM2_E { "enum:corruptions-fully-enumerated".into() } else { "enum:corruptions-partly-enumerated".into() });
+            }
+            if slot >= cands {
+                out.skipped = Some("enum-slot-beyond-run".into());
+                return out;
+            }
+            out.probes.push("enum:corruption-case".into());
         }
         let reference = ctx.reference(worker, &case.program);
         if oracle::is_crash(&reference.status) {
